@@ -477,6 +477,12 @@ def run_cross_rules(ctx):
         ('interval_bad_bracket', lambda: M.IntervalGrader(answers='{1,2}')),
         ('interval_bad_bracket', lambda: M.IntervalGrader(answers=['[', '1', '2', '>'])),
         ('interval_wrong_length', lambda: M.IntervalGrader(answers=['[', '1', ']'])),
+        ('interval_empty_bound', lambda: M.IntervalGrader(answers=['[', '', '1', ']'])), ('interval_empty_bound', lambda: M.IntervalGrader(answers='[ , 1]')),
+        ('interval_empty_bound', lambda: M.IntervalGrader(answers=['[', '0', '  ', ')'])), ('interval_empty_bound', lambda: M.IntervalGrader(answers=('[0,1]', '[0, ]'))),
+        ('interval_empty_bound', lambda: M.ListGrader(answers=['[0,1]', '[ ,2]'], subgraders=M.IntervalGrader())),
+        ('nested_same_delimiter', lambda: M.SingleListGrader(subgrader=M.IntervalGrader())),
+        ('nested_same_delimiter', lambda: M.SingleListGrader(delimiter=';', subgrader=M.IntervalGrader(delimiter=';'))),
+        ('nested_same_delimiter', lambda: M.SingleListGrader(delimiter=',', subgrader=M.SingleListGrader(delimiter=';', subgrader=M.IntervalGrader()))),
         ('interval_answer_unreadable', lambda: M.IntervalGrader(answers='[1]')), ('interval_answer_unreadable', lambda: M.IntervalGrader(answers='[]')),
         ('interval_answer_unreadable', lambda: M.IntervalGrader(answers=('[1,2]', '[3]'))),
         ('interval_bracket_not_single_character', lambda: M.IntervalGrader(answers=['[(', '1', '2', ']'])),
@@ -531,6 +537,7 @@ def run_cross_rules(ctx):
             ('ordered_with_subgrader_list', lambda: M.ListGrader(answers=['a', 'b'], subgraders=[S(), S()], ordered=True)),
             ('valid_grouping', lambda: M.ListGrader(answers=[['a', 'b'], ['c', 'd']], subgraders=M.ListGrader(subgraders=S()), grouping=[1, 2, 1, 2])),
             ('distinct_delimiters', lambda: M.SingleListGrader(delimiter=';', subgrader=M.SingleListGrader(delimiter=',', subgrader=S()))),
+            ('distinct_delimiters', lambda: M.SingleListGrader(delimiter=';', subgrader=M.IntervalGrader())),
             ('delete_default_constant', lambda: M.FormulaGrader(user_constants={'e': None}, variables=['e'])),
             ('delete_a_constant_that_does_not_exist', lambda: M.FormulaGrader(user_constants={'foo': None, 'c': 2.0})),
             ('whitelist_none', lambda: M.FormulaGrader(whitelist=[None]))]:
